@@ -22,7 +22,7 @@ from harness import protocol as P
 from harness import scenarios as S
 from harness import forge as F
 from harness import kernel as K
-from harness.world import State, Endpoint, HarnessError
+from harness.world import State, Endpoint, HarnessError, world_digest
 
 from ref import codec as RC
 from ref import keys as RK
@@ -689,7 +689,7 @@ def work(case):
     res = judge(w, confs, delivered)
     est = tuple(bool(established_sas(w.endpoints[x])) for x in ('A', 'B'))
     alive = tuple(w.endpoints[x].alive for x in ('A', 'B'))
-    return res, est, alive
+    return res, est, alive, world_digest(w)
 
 
 def plan_label(case):
@@ -711,7 +711,7 @@ def replay(path):
         case = (case[0], plan)
     else:
         case = tuple(case)
-    res, est, alive = work(case)
+    res, est, alive, _ = work(case)
     print('established (A, B):', est)
     for r in res:
         print('reproduced:', r)
@@ -727,7 +727,14 @@ def main():
     cases += [('mitm', v) for v in ('own-auth-guessed-psk', 'relay-alices-id-and-auth', 'relay-alices-auth-only')]
     outcomes = collections.Counter()
     n_est = 0
-    for case, (res, est, alive) in zip(cases, ck.pmap(work, cases)):
+    results = ck.pmap(work, cases)
+    again = [i for i in range(0, len(cases), 11) if cases[i][0] != 'mitm']
+    validated = 0
+    for i, r2 in zip(again, ck.pmap(work, [cases[i] for i in again])):
+        if r2[3] != results[i][3]:
+            raise HarnessError('plan %s is not deterministic: two runs differ' % plan_label(cases[i]))
+        validated += 1
+    for case, (res, est, alive, _) in zip(cases, results):
         lab = plan_label(case)
         outcomes[(case[0] if case[0] != 'mitm' else 'mitm', est)] += 1
         if case[0] in GOOD and not (case[0] != 'mitm' and case[1]) and est != (True, True):
@@ -738,7 +745,7 @@ def main():
     nontrivial = sum(v for k, v in outcomes.items())
     ck.coverage.update(states=len(cases) * 6, transitions=len(cases) * 6, evaluations=len(cases),
                        distinct_nontrivial=len({plan_label(c).split('^')[0] for c in cases}),
-                       traces_validated_against_impl=0,
+                       traces_validated_against_impl=validated,
                        rule='one evaluation = one complete handshake of the two real endpoints under one adversary plan '
                             '(or one configuration mismatch); distinct_nontrivial = distinct plan labels (octet '
                             'mutations of one field position counted once)',
